@@ -2509,6 +2509,10 @@ def rule_option_members_optional(repo, rep):
             for t in tests:
                 if " in op.attrs" in str(norm(t)) and "not in" not in str(norm(t)):
                     guarded = True
+                # `op.attrs.get('<k>') == <value other than None>` holds only if the member is there
+                for cmp_ in ast.walk(t):
+                    if isinstance(cmp_, ast.Compare) and len(cmp_.ops) == 1 and isinstance(cmp_.ops[0], ast.Eq) and str(norm(cmp_.left)).replace('"', "'") == f"op.attrs.get('{k}')" and str(norm(cmp_.comparators[0])) != "None":
+                        guarded = True
             child, cur = cur, tr.parents.get(cur)
         if k in _OPTION_SUBSCRIPT_EXEMPT and not guarded:
             rep.ok("C13-au", site, f"op.attrs['{k}']", "reviewed: " + _OPTION_SUBSCRIPT_EXEMPT[k])
